@@ -12,6 +12,7 @@
 (* (the quantifier of C12 / C13), which TLC checks as RangeLemma.          *)
 (***************************************************************************)
 EXTENDS Integers, Sequences, FiniteSets, Calendar
+SX == INSTANCE SequencesExt      \* named: its `Range` would clash with the one defined below
 
 Tod(t) == MinuteOfDay(t)
 
@@ -20,10 +21,8 @@ ByDate(start, end, d)  == DayOf(start) <= d /\ d <= DayOf(end)                  
 RangeLemma(start, end) ==
   Tod(end) >= Tod(start) => \A d \in (DayOf(start) - 1)..(DayOf(end) + 1) : InRange(start, end, d) = ByDate(start, end, d)
 
-RECURSIVE Ascending(_)
-\* a finite set of integers as an ascending sequence
-Ascending(S) == IF S = {} THEN << >>
-                ELSE LET m == CHOOSE x \in S : \A y \in S : x <= y IN << m >> \o Ascending(S \ {m})
+\* a finite set of integers as an ascending sequence (SequencesExt's sort: histories of several years stay cheap)
+Ascending(S) == SX!SetToSortSeq(S, LAMBDA x, y : x < y)
 Span(start, end) == DayOf(start)..DayOf(end)
 
 ClockDays(start, end) == Ascending({ d \in Span(start, end) : IsBDay(d) /\ InRange(start, end, d) })
@@ -34,8 +33,7 @@ DayEvents(d, pre, post) ==
   << [t |-> At(d, OPEN), k |-> 1], [t |-> At(d, CLOSE), k |-> 2] >> \o
   (IF post THEN << [t |-> At(d, POST), k |-> 3] >> ELSE << >>)
 
-RECURSIVE Concat(_)
-Concat(ss) == IF ss = << >> THEN << >> ELSE Head(ss) \o Concat(Tail(ss))
+Concat(ss) == SX!FlattenSeq(ss)
 
 ClockEvents(start, end, pre, post) ==
   LET ds == ClockDays(start, end) IN Concat([i \in 1..Len(ds) |-> DayEvents(ds[i], pre, post)])
